@@ -105,3 +105,119 @@ func runRealListerHistory(c *Ctx) {
 		ts.Close()
 	}
 }
+
+// runRealListerFaults: the client-backed PodLister against an API server that starts failing at the k-th LIST request of one
+// dry run (k = 1, 2, 3; a 500, a 410 for an expired continue token, or a dropped connection) and pages whenever a limit is asked
+// for. The property as oracle: a listing that failed — at whatever request — never blocks the update and is reported as the
+// "failed to list pods" warning; a listing none of whose requests failed is judged like the same pods held in memory.
+func runRealListerFaults(c *Ctx) {
+	r := NewRng(c.Seed + 707)
+	rounds := sizes(c, 6, 60)
+	for round := 0; round < rounds; round++ {
+		pods := genPopulation(r, 3+r.Intn(12), []string{"exrc"})
+		// the violating pods sit at the end of the listing, where a listing cut short would lose them
+		tail := genPopPod(r, 0, nil)
+		tail.Name, tail.Spec.HostNetwork = "zz-violating-last", true
+		pods = append(pods, tail)
+		pageCap := 1 + r.Intn(4)
+		failFrom := 1 + round%3
+		flavour := round % 4
+		listReqs, failed := 0, 0
+		ts := httptest.NewServer(http.HandlerFunc(func(w http.ResponseWriter, rq *http.Request) {
+			w.Header().Set("Content-Type", "application/json")
+			parts := strings.Split(strings.Trim(rq.URL.Path, "/"), "/")
+			switch {
+			case len(parts) == 4 && parts[2] == "namespaces":
+				json.NewEncoder(w).Encode(&corev1.Namespace{TypeMeta: metav1.TypeMeta{Kind: "Namespace", APIVersion: "v1"}, ObjectMeta: metav1.ObjectMeta{Name: parts[3]}})
+			case len(parts) == 5 && parts[4] == "pods":
+				listReqs++
+				if listReqs >= failFrom {
+					failed++
+					switch flavour {
+					case 0:
+						w.WriteHeader(500)
+						json.NewEncoder(w).Encode(&metav1.Status{TypeMeta: metav1.TypeMeta{Kind: "Status", APIVersion: "v1"}, Status: "Failure", Reason: metav1.StatusReasonInternalError, Code: 500, Message: "etcd unavailable"})
+					case 1:
+						w.WriteHeader(410)
+						json.NewEncoder(w).Encode(&metav1.Status{TypeMeta: metav1.TypeMeta{Kind: "Status", APIVersion: "v1"}, Status: "Failure", Reason: metav1.StatusReasonExpired, Code: 410, Message: "the continue token has expired"})
+					case 2:
+						w.WriteHeader(429)
+						json.NewEncoder(w).Encode(&metav1.Status{TypeMeta: metav1.TypeMeta{Kind: "Status", APIVersion: "v1"}, Status: "Failure", Reason: metav1.StatusReasonTooManyRequests, Code: 429, Message: "slow down"})
+					default:
+						if hj, ok := w.(http.Hijacker); ok {
+							if conn, _, err := hj.Hijack(); err == nil {
+								conn.Close()
+								return
+							}
+						}
+						w.WriteHeader(503)
+					}
+					return
+				}
+				pl := &corev1.PodList{TypeMeta: metav1.TypeMeta{Kind: "PodList", APIVersion: "v1"}}
+				start, _ := strconv.Atoi(rq.URL.Query().Get("continue"))
+				end := len(pods)
+				if lim, err := strconv.Atoi(rq.URL.Query().Get("limit")); err == nil && lim > 0 {
+					if lim > pageCap {
+						lim = pageCap
+					}
+					if start+lim < end {
+						end = start + lim
+						pl.Continue = strconv.Itoa(end)
+					}
+				}
+				for _, p := range pods[start:end] {
+					pl.Items = append(pl.Items, *p)
+				}
+				json.NewEncoder(w).Encode(pl)
+			default:
+				w.WriteHeader(404)
+			}
+		}))
+		cs, err := kubernetes.NewForConfig(&rest.Config{Host: ts.URL, QPS: -1})
+		if err != nil {
+			ts.Close()
+			return
+		}
+		mk := func() *admission.Admission {
+			adm := &admission.Admission{
+				Configuration: &admissionapi.PodSecurityConfiguration{Defaults: admissionapi.PodSecurityDefaults{Enforce: "privileged", EnforceVersion: "latest", Audit: "privileged", AuditVersion: "latest", Warn: "privileged", WarnVersion: "latest"},
+					Exemptions: admissionapi.PodSecurityExemptions{RuntimeClasses: []string{"exrc"}}},
+				Evaluator: realEvaluator, Metrics: &recorder{}, PodSpecExtractor: admission.DefaultPodSpecExtractor{},
+				NamespaceGetter: admission.NamespaceGetterFromClient(cs), PodLister: admission.PodListerFromClient(cs)}
+			if err := adm.CompleteConfiguration(); err != nil {
+				panic(err)
+			}
+			return adm
+		}
+		level := pick(r, []string{"baseline", "restricted"})
+		a := &AdmitCase{Res: "namespaces", Op: admissionv1.Update, Name: "team-a", NS: "team-a", User: "u", ExpireAfter: -1,
+			Obj: ObjSpec{Kind: "namespace", NSName: "team-a", Labels: map[string]string{api.EnforceLevelLabel: level}},
+			Old: ObjSpec{Kind: "namespace", NSName: "team-a", Labels: map[string]string{}}}
+		ref := mk()
+		ref.PodLister = clusterLister{"team-a": pods}
+		alone := ref.Validate(context.Background(), a.attributes()).DeepCopy()
+		got := mk().Validate(context.Background(), a.attributes()).DeepCopy()
+		ts.Close()
+		c.Eval(1)
+		c.Tag(fmt.Sprintf("realLister.fault@%d/%d", failFrom, flavour))
+		names := []string{}
+		for _, p := range pods {
+			names = append(names, p.Name)
+		}
+		in := J{"newEnforce": level, "podsAsListed": names, "serverPageCap": pageCap, "serverFailsFromListRequest": failFrom, "failure": []string{"500", "410 expired", "429", "connection closed"}[flavour], "listRequestsSeen": listReqs, "listRequestsFailed": failed}
+		if !got.Allowed {
+			c.Violate(Finding{Desc: "a namespace update is blocked because listing its pods failed", Key: "ns-blocked-by-list", Input: in, Go: got})
+			continue
+		}
+		if failed > 0 {
+			if len(got.Warnings) != 1 || !strings.Contains(got.Warnings[0], "failed to list pods") {
+				c.Violate(Finding{Desc: fmt.Sprintf("the API server failed LIST request %d of the dry run's pod listing, and the update is answered without the \"failed to list pods\" warning", failFrom),
+					Key: "list-failure-unreported", Input: in, Go: J{"warnings": got.Warnings, "warningsWithAllPodsInMemory": alone.Warnings}})
+			}
+		} else if canon(got.Warnings) != canon(alone.Warnings) {
+			c.Violate(Finding{Desc: "client-backed pod lister, no request failed: the update is answered differently from a controller whose lister holds the same pods in memory",
+				Key: "lister-differs", Input: in, Go: J{"clientBackedLister": got.Warnings, "inMemoryLister": alone.Warnings}})
+		}
+	}
+}
